@@ -1,6 +1,7 @@
 """C19 -- tools cannot be steered outside the intended files.
 
-Run order: corpus / finding witnesses -> model-of-OS check (model `resolve`/`exists`/`is_symlink` vs pathlib on
+Run order: corpus (incl. the witnesses of the FIXED finding C19-unstattable-symlink-last, repo fix 039cc0c: they must
+be refused with nothing created/replaced) -> model-of-OS check (model `resolve`/`exists`/`is_symlink` vs pathlib on
 real trees) -> correspondence (validator verdict + refusing check per tool vs the extracted model) -> the property
 itself on the implementation (independent of the model): snapshot before/after + interposed record of os.* / open.
 Then schema names (exhaustive small scope), frozen references, source URIs.
@@ -21,7 +22,10 @@ from lib.model import enc_str, run_driver
 
 LEVEL = "proof"
 DRIVERS = ["pathm"]
-FINDING = "C19-unstattable-symlink-last"
+# No known finding is left for C19.  The former C19-unstattable-symlink-last (links for which stat fails were accepted
+# because the link test was `exists() and is_symlink()`) was repaired in /repo by 039cc0c; its witnesses are corpus
+# cases with "expect": "refused" and a path with such a link that is not refused is an unattributed failure again.
+FIXED_BY = "039cc0c"
 
 DOC = "===D===\nA::1\n===END===\n"
 NEWDOC = "===D===\nA::2\n===END===\n"
@@ -247,10 +251,13 @@ def worker(job):
             except OSError:
                 ex = "R"
             try:
-                sl = "1" if Path(p).absolute().is_symlink() else "0"
+                sl = "1" if Path(p).absolute().is_symlink() else "0"     # lstat: a dangling link IS a link
+            except OSError:
+                sl = "R"
+            try:
                 dr = "1" if Path(p).absolute().is_dir() else "0"
             except OSError:
-                sl = dr = "?"
+                dr = "?"
             rec["st"] = ex + sl + dr
             rec["feat"] = _features(p, cwd)
             rec["calls"] = {}
@@ -638,11 +645,18 @@ def run(ctx):
     for f in sorted(cdir.glob("*.json")):
         corpus.append(json.loads(f.read_text()))
     groups = {}
+    expect = {}          # (tree, cwd, path) -> corpus record that states what every tool must do
     for c in corpus:
         if "path" in c:
             groups.setdefault((c.get("tree", 0), c.get("cwd", "sb")), []).append(c["path"])
-    groups.setdefault((0, "sb"), []).append("dang.md")
-    for (tv, tc), ps in sorted(groups.items()):
+            if c.get("expect"):
+                expect[(c.get("tree", 0), c.get("cwd", "sb"), c["path"])] = c
+    # the witnesses of the fixed finding are replayed even if the corpus directory is emptied
+    for pth in ("dang.md", "dangd/x.md", "nd.md"):
+        groups.setdefault((0, "sb"), []).append(pth)
+        expect.setdefault((0, "sb", pth), {"path": pth, "tree": 0, "cwd": "sb", "expect": "refused", "fixed": FIXED_BY})
+    expect_seen = set()
+    for (tv, tc), ps in sorted(groups.items(), reverse=True):      # inserted at the front: tree 0 (dang.md) ends up first
         jobs.insert(0, {"variant": tv, "cwd": tc, "paths": sorted(set(ps)), "tools": ("w", "v", "f"), "prefixes": prefixes, "mutate": mutate})
     # split big jobs for parallelism
     split = []
@@ -658,6 +672,8 @@ def run(ctx):
         se = pool.apply(schema_end_to_end, ({"names": rng_names},))
         fu = pool.apply(frozen_and_uri, ({"uris": gen_uris(ctx)},))
     ctx.extra["rule"] = (
+        "corpus first (witnesses of the finding fixed by 039cc0c -- dangling link as last / as directory component, ENOTDIR link, "
+        "41-link chain -- must be refused E_PATH by all three tools with an unchanged tree and no read/mutate attempt); then "
         "3 generated trees (sandbox sb/ with dirs, files, links to dir/file inside and outside, dangling, ENOTDIR and cyclic "
         "links; secrets in out/ beside the sandbox), path strings = every last-segment, every (dir-like x last) pair and random "
         "depth-3/4 strings over the segment pool (name, ., .., link-to-dir, link-to-file, dangling, loop, allowed/disallowed/"
@@ -687,7 +703,8 @@ def run(ctx):
                 ctx.hist("out_of_model", "cycle followed by '..' (CPython resolve returns, model refuses)")
             if m is not None and not oom:
                 os_checked += 1
-                ok = (m["res"] == r["res"]) and (m["st"][0] == r["st"][0]) and (r["st"][1] == "?" or m["st"][1:] == r["st"][1:])
+                ok = ((m["res"] == r["res"]) and (m["st"][0] == r["st"][0]) and (m["st"][1] == r["st"][1])
+                      and (r["st"][2] == "?" or m["st"][2] == r["st"][2]))
                 if not ok:
                     os_bad += 1
                     ctx.correspondence_failure({"tree": b["variant"], "cwd": b["cwd"], "path": r["path"], "os": [r["res"], r["st"]],
@@ -702,6 +719,20 @@ def run(ctx):
                         "outcome": oc, "features": feat, "snapshot_diff": c["diff"], "io_ops": c["io"], "failed_io_attempts": c["tried"]}
                 if forbidden or cls != "plain":
                     ctx.nontrivial((b["variant"], b["cwd"], r["path"], tool))
+                # ---- corpus expectation (witnesses of fixed findings / past failures): refused, nothing read/created/replaced.
+                # Exactly what the property text states (any refusal code; the E_PATH verdict itself is compared with the model
+                # above), judged from the corpus record alone -- independent of the feature reader and of the model.
+                exp = expect.get((b["variant"], b["cwd"], r["path"]))
+                if exp is not None and exp.get("expect") == "refused":
+                    expect_seen.add((b["variant"], b["cwd"], r["path"]))
+                    ctx.hist("corpus_expect_refused", oc)
+                    accepted = oc.endswith(":success") or oc == "ACCEPT:read"
+                    if accepted or c["diff"] or c["io"]:
+                        why = (f"regression of the defect fixed by {exp['fixed']}: " if exp.get("fixed") else "corpus case: ")
+                        ctx.property_failure(dict(case, corpus=exp), why + "a path through a symbolic link (dangling / not stat-able / live) "
+                                             f"was not refused before a file was read, created or replaced (outcome {oc}, "
+                                             f"changed={bool(c['diff'])}, io={bool(c['io'])})")
+                        continue
                 # ---- correspondence: verdict and refusing check ----
                 if m is not None:
                     want = model_expect(m[tool])
@@ -725,13 +756,17 @@ def run(ctx):
                     continue
                 if forbidden and (not refused or changed or touched):
                     links = feat["links"]
-                    attributed = (not feat["dotdot"] and not feat["bad_ext"] and links and all(not st for _, st in links))
-                    fid = FINDING if attributed else None
-                    ctx.hist("property_failures", fid or "unattributed")
+                    unstat = (not feat["dotdot"] and not feat["bad_ext"] and links and all(not st for _, st in links))
+                    # no finding is listed any more: a link that cannot be stat'ed (dangling / ENOTDIR / >40 links) is a link
+                    ctx.hist("property_failures", "unstattable-symlink (fixed by %s: regression)" % FIXED_BY if unstat else "other")
                     ctx.property_failure(case, "path with a '..'/symlink component/disallowed extension was not refused before touching files "
-                                         f"(outcome {oc}, changed={changed})", finding=fid)
+                                         f"(outcome {oc}, changed={changed})"
+                                         + (f"; every link on the path is one for which stat fails -- the defect fixed by {FIXED_BY}" if unstat else ""))
                 if forbidden and refused and c["tried"]:
                     ctx.hist("refused_after_failed_attempt", oc)
+    for key in sorted(set(expect) - expect_seen):
+        ctx.obligation_failure("corpus", f"corpus case {key} with an expectation was not executed")
+    ctx.extra["corpus_expectations_replayed"] = len(expect_seen)
     ctx.extra["os_model_checked"] = os_checked
     ctx.extra["os_model_disagreements"] = os_bad
     # ---- finding witnesses (replayed on the implementation every run) ----
